@@ -1,0 +1,4 @@
+//! Verification hooks (only compiled with the `verif_hooks` feature).
+//!
+//! Thin, add-only wrappers that expose crate-private machinery to the external
+//! verification harness in `/verif`. Nothing in here is used by the crate itself.
